@@ -94,6 +94,18 @@ fn run_case(c: &WtCase, seed: u64, idx: u64, st: &mut Stats) -> Vec<Violation> {
             )]
         }
     };
+    // every other session starts with unsaved drafts of all modules that come and go
+    if idx % 2 == 1 {
+        for (m, pm) in c.printed.iter().enumerate() {
+            if let Err(e) = lsp.disturb(&uris[m], &pm.text) {
+                return vec![Violation::new(
+                    "the language server died or stopped answering while a draft was opened and closed",
+                    json!({"signature": "C18 server-failure on draft", "error": crate::util::clip(&format!("{e:?}"), 500)}),
+                )];
+            }
+        }
+        st.inc("sessions_after_drafts");
+    }
     let mut fresh = 0;
     for (m, byte, kind) in probes {
         if !c.printed[m].text.is_char_boundary(byte) {
@@ -194,7 +206,9 @@ fn run_case(c: &WtCase, seed: u64, idx: u64, st: &mut Stats) -> Vec<Violation> {
         };
         match compile_doc(&new_src, "c18b") {
             Ok(d) => {
-                let want = if old_name.starts_with('@') && n_edits > 0 {
+                // an offered rename of an @reference must rename the component, whatever part of the variable the
+                // cursor is on
+                let want = if old_name.starts_with('@') {
                     rename_component(&base_doc, &old_name[1..], &new_name[1..])
                 } else {
                     base_doc.clone()
